@@ -159,6 +159,25 @@ void probe_inner(IInner<S>* in, std::vector<unsigned char>& out)
 }
 
 template <class S>
+void apply_inner_impl(IInner<S>* in, int method, const VecL& xl, VecL& yl)
+{
+    const long n = in->rows();
+    Eigen::Matrix<S, Eigen::Dynamic, 1> x(n), y(n);
+    for (long i = 0; i < n; i++) x[i] = narrow<S>(xl[i]);
+    y.setZero();
+    switch (method)
+    {
+        case M_PERFORM: in->perform_op(x.data(), y.data()); break;
+        case M_SOLVE: in->solve(x.data(), y.data()); break;
+        case M_LOWER: in->lower_triangular_solve(x.data(), y.data()); break;
+        case M_UPPER: in->upper_triangular_solve(x.data(), y.data()); break;
+        default: break;
+    }
+    yl.resize(n);
+    for (long i = 0; i < n; i++) yl[i] = widen1(y[i]);
+}
+
+template <class S>
 struct ScalarInfo
 {
     typedef typename Eigen::NumTraits<S>::Real Real;
